@@ -893,12 +893,31 @@ Fixpoint simple (e : expr) : bool :=
   | ENot _ | EThen _ _ => false
   | EAnd a b | EOr a b => simple a && simple b
   end.
+(* can e end at more than one payload position (conservative: an AND outside NOT) *)
+Fixpoint multi_end (e : expr) : bool :=
+  match e with
+  | EAtom _ | ESkip | ENot _ => false
+  | EAnd _ _ => true
+  | EOr a b | EThen a b => multi_end a || multi_end b
+  end.
+Fixpoint or_only (e : expr) : bool :=
+  match e with
+  | EAtom _ | ESkip => true
+  | EOr a b => or_only a && or_only b
+  | _ => false
+  end.
+Fixpoint nots_or_only (e : expr) : bool :=
+  match e with
+  | EAtom _ | ESkip => true
+  | ENot a => or_only a
+  | EAnd a b | EOr a b | EThen a b => nots_or_only a && nots_or_only b
+  end.
 (* the fragment in which NOT inside a sequence has a defined meaning (notes/C03.md) *)
 Fixpoint wf_seq (tail : bool) (e : expr) : bool :=
   match e with
   | EAtom _ | ESkip => true
   | ENot a => wf_seq true a && (tail || simple a)
-  | EThen a b => wf_seq false a && wf_seq tail b
+  | EThen a b => wf_seq false a && wf_seq tail b && (negb (multi_end a) || nots_or_only b)
   | EAnd a b => wf_seq tail a && wf_seq tail b && (tail || (then_free a && then_free b))
   | EOr a b => wf_seq tail a && wf_seq tail b
   end.
